@@ -829,3 +829,4 @@ EXPLANATION += (' Location-independent additions: VOCAB/compound-boundary, VOCAB
 EXPLANATION += (' Round 6: ' + 'PITFALL/falsy-zero over every function of chord_symbols_lib; PITCHCLASS/reduced (shared with C09); SEVENTH/reader is read path-wise (stored value minus written alteration on the paths of one degree).')
 EXPLANATION += (' Round 7: ' + 'VOCAB/modifications-by-pattern; VOCAB/accidentals-measured.')
 EXPLANATION += (' Rounds 9-10: ' + 'RX/root-takes-its-accidentals (rx.shadowed_alternatives on the regex AST); PITFALL/misaligned-index.')
+EXPLANATION += (' Round 11: ' + 'RX/longest-alternative-first (rx.prefix_shadowed); KEYERR/regex-group-into-table; PITFALL/previous-wraps for filtered counts; SEVENTH read from a returned value.')
